@@ -61,7 +61,7 @@ def finish_common(chk, exs, kind, case_of, tier):
                 chk.validated += 1
     chk.functions = W.functions_encoded(orch_single.FUNCS)
     chk.stubs = ["direction (get_cauchy_point+get_freev+subspace_minimization): fresh xbar in the box with grad.(xbar-x) < 0, FUNCTIONAL in (x, grad, S, Y) (Ackermann) [C08/C09]",
-                 "line_search, lean: one trial x + a d with a = A(x, f, grad, d) in (0,1] functional (or a = 1 in 'unit' mode), accepted iff f decreases [C11]; trial points are new points (no memo hit by coincidence)",
+                 "line_search, lean: one trial x + a d with a = A(x, f, grad, d, above_iter == 0) in (0,1] functional (or a = 1 in 'unit' mode), accepted iff f decreases [C11]; trial points are new points (no memo hit by coincidence)",
                  "form_invMfactors: opaque token", "objective/gradient: uninterpreted functions shared by all runs of a path"]
     chk.assumptions = ["objective values finite", "n = 1 unless stated", "runs stopped by gtol/maxiter/abnormal line search only (ftol = 0, no target)"]
     chk.outside = ["more iterations than the bound", "float64 rounding ('up to rounding' is exact equality of terms here)", "several trials per line search in the relational runs"]
